@@ -1862,7 +1862,8 @@ struct Ctx<'a> {
 
 impl Ctx<'_> {
     fn on(&self, h: Hazard) -> bool {
-        self.hz.get(h as usize).copied().unwrap_or(1000) < self.mode.hazard_permille
+        // active for the top `hazard_permille` draws: shrinking (towards 0) switches hazards off
+        self.hz.get(h as usize).copied().unwrap_or(0) + self.mode.hazard_permille >= 1000 && self.mode.hazard_permille > 0
     }
     fn bcf(&self) -> bool {
         self.mode.target == Target::Bcf
@@ -2020,7 +2021,8 @@ fn build_record(h: &VarHeader, mode: &Mode, raw: RawRecord) -> VarRecord {
         h.contigs[pick_idx(raw.chrom_sel, h.contigs.len())].id.clone()
     };
     // POS (0 = telomere, rare)
-    let pos = if raw.pos_draw < 6 && mode.telomere { 0 } else { raw.pos };
+    // (drawn from the top of the range so that shrinking moves away from the telomere class)
+    let pos = if raw.pos_draw >= 994 && mode.telomere { 0 } else { raw.pos };
     // ID
     let mut ids: Vec<String> = Vec::new();
     for id in &raw.ids {
@@ -2108,7 +2110,8 @@ fn build_record(h: &VarHeader, mode: &Mode, raw: RawRecord) -> VarRecord {
                 v => v,
             });
         }
-        let whole_missing = p.whole_missing < 6 || v.as_ref().map(one_element_missing_info).unwrap_or(false);
+        // a Flag has no value entry in the VCF grammar, so `FLAG=.` is not generated
+        let whole_missing = d.ty != Ty::Flag && (p.whole_missing < 6 || v.as_ref().map(one_element_missing_info).unwrap_or(false));
         if whole_missing && (!cx.bcf() || cx.on(Hazard::InfoMissingValue)) {
             v = None;
         } else if let Some(x) = &mut v {
